@@ -319,6 +319,56 @@ pub fn m_probe_all() {
         std::println!("PROBE format_number_kept S:{}", f(0.5, 3, false, true));
         std::println!("PROBE format_number_plain S:{}", f(12345.25, 1, true, false));
     }
+    {
+        // C03 translator validation: the program  x = 2 / x = x + 3 / x + 4  through the real variable machinery
+        use crate::compiler::Interpreter;
+        use crate::syntax::SyntaxParser;
+        let session = Session::new();
+        let lines: [&[(&str, f64)]; 3] = [&[("x", 0.0), ("=", 0.0), ("n", 2.0)], &[("x", 0.0), ("=", 0.0), ("x", 0.0), ("+", 0.0), ("n", 3.0)], &[("x", 0.0), ("+", 0.0), ("n", 4.0)]];
+        let mut last = f64::NAN;
+        for l in lines.iter() {
+            let mut tk2 = mk_tokinizer(&cfg, &session);
+            let mut pos = 0usize;
+            for (k, v) in l.iter() {
+                let t = match *k { "n" => TokenType::Number(*v, NumberType::Decimal), "x" => TokenType::Text("x".to_string()), o => TokenType::Operator(o.chars().next().unwrap()) };
+                tk2.token_infos.push(c03_ti(pos, "x", t));
+                pos += 2;
+            }
+            crate::variable::update_token_variables(&mut tk2);
+            tk2.token_generator();
+            tk2.token_cleaner();
+            crate::tokinizer::verif_k_local::missing_token_adder(&mut tk2);
+            let ast = { let mut ps = SyntaxParser::new(&session, &tk2); ps.parse() };
+            last = match ast { Ok(a) => match Interpreter::execute(&cfg, Rc::new(a), &session) { Ok(r) => crate::verif_k::c02::item_number(r.deref()).unwrap_or(f64::NAN), Err(_) => f64::NAN }, Err(_) => f64::NAN };
+        }
+        out("program_x_rebound", last);
+    }
+    {
+        // C18 translator validation: add r0, add r1, delete r0, add r0 on language en -> 2 rules, the first is r1
+        use crate::{RuleTrait, SmartCalc, SmartCalcConfig};
+        struct Named(String);
+        impl RuleTrait for Named {
+            fn name(&self) -> String { self.0.clone() }
+            fn call(&self, _: &SmartCalcConfig, _: &alloc::collections::BTreeMap<String, TokenType>) -> Option<TokenType> { None }
+        }
+        let mut calc = SmartCalc::default();
+        let r0: Rc<dyn RuleTrait> = Rc::new(Named("n0".to_string()));
+        let r1: Rc<dyn RuleTrait> = Rc::new(Named("n1".to_string()));
+        calc.add_rule("en".to_string(), Vec::new(), r0.clone());
+        calc.add_rule("en".to_string(), Vec::new(), r1.clone());
+        calc.delete_rule("en".to_string(), "n0".to_string());
+        calc.add_rule("en".to_string(), Vec::new(), r0.clone());
+        let c2 = crate::smartcalc::verif_k_local::config_of(&calc);
+        let api: Vec<String> = c2.rule.get("en").unwrap().iter().filter_map(|x| match x { crate::tokinizer::RuleType::API { rule, .. } => Some(rule.name()), _ => None }).collect();
+        std::println!("PROBE registration_order S:{}", api.join(","));
+    }
+    {
+        // C08 translator validation: the literal -12.345,67k read under ',' decimal / '.' thousands
+        let calc = crate::SmartCalc::default();
+        let r = calc.execute("en", "-12.345,67k".to_string());
+        let v = match r.lines[0].as_ref().and_then(|l| l.result.as_ref().ok()) { Some(res) => match res.ast.deref() { SmartCalcAstType::Item(i) => i.get_underlying_number(), _ => f64::NAN }, None => f64::NAN };
+        out("number_literal", v);
+    }
     out("number_div", NumberItem(7.0, NumberType::Decimal).calculate(&cfg, true, &NumberItem(2.0, NumberType::Decimal), OperationType::Div).unwrap().get_underlying_number());
     out("number_div_zero", NumberItem(7.0, NumberType::Decimal).calculate(&cfg, true, &NumberItem(0.0, NumberType::Decimal), OperationType::Div).unwrap().get_underlying_number());
     {
@@ -669,3 +719,104 @@ pub fn m_replay_wiring() {
 }
 #[cfg(kani)]
 pub fn m_replay_wiring() {}
+
+/// a written number literal natively: (convention 0 = ',' groups '.' decimal / 1 = '.' groups ',' decimal, sign 0/-/+,
+/// number of digit groups, three group sizes, fraction digits, the digits, suffix code 0 none, 1..8 k K M G T P Z Y, 9 other)
+#[cfg(not(kani))]
+pub fn m_replay_number_literal() {
+    let conv: u8 = vany(); let sign: u8 = vany(); let ng: u8 = vany();
+    let g0: u8 = vany(); let g1: u8 = vany(); let g2: u8 = vany(); let nf: u8 = vany();
+    vassume(conv <= 1 && sign <= 2 && ng >= 1 && ng <= 3 && g0 >= 1 && g0 <= 3 && g1 <= 3 && g2 <= 3 && nf <= 3);
+    let sizes = [g0, g1, g2];
+    let (ts, ds) = if conv == 0 { (",", ".") } else { (".", ",") };
+    let mut written = String::new();
+    let mut canonical = String::new();
+    if sign == 1 { written.push('-'); canonical.push('-'); } else if sign == 2 { written.push('+'); }
+    let mut gi = 0usize;
+    while gi < ng as usize {
+        if gi > 0 { written.push_str(ts); }
+        let mut k = 0u8;
+        while k < sizes[gi] { let d: u8 = vany(); vassume(d <= 9); written.push((b'0' + d) as char); canonical.push((b'0' + d) as char); k += 1; }
+        gi += 1;
+    }
+    if nf > 0 {
+        written.push_str(ds); canonical.push('.');
+        let mut k = 0u8;
+        while k < nf { let d: u8 = vany(); vassume(d <= 9); written.push((b'0' + d) as char); canonical.push((b'0' + d) as char); k += 1; }
+    }
+    let note: u8 = vany();
+    vassume(note <= 9);
+    let (suffix, factor) = match note { 0 => ("", 1.0), 1 => ("k", 1e3), 2 => ("K", 1e3), 3 => ("M", 1e6), 4 => ("G", 1e9), 5 => ("T", 1e12), 6 => ("P", 1e15), 7 => ("Z", 1e18), 8 => ("Y", 1e21), _ => ("q", 1.0) };
+    written.push_str(suffix);
+    let parser: u8 = vany();
+    vassume(parser <= 2);
+    let written = match parser { 0 => written, 1 => alloc::format!("{}%", written), _ => alloc::format!("${}", written) };
+    let mut calc = crate::SmartCalc::default();
+    calc.set_decimal_seperator(ds.to_string());
+    calc.set_thousand_separator(ts.to_string());
+    let want = canonical.parse::<f64>().expect("canonical literal") * factor;
+    let r = calc.execute("en", written);
+    let line = r.lines[0].as_ref().expect("a result line");
+    let res = line.result.as_ref().expect("the literal evaluates");
+    let got = match res.ast.deref() { SmartCalcAstType::Item(i) => i.get_underlying_number(), _ => f64::NAN };
+    assert!((got - want).abs() <= 1e-9 * want.abs().max(1.0));
+}
+#[cfg(kani)]
+pub fn m_replay_number_literal() {}
+
+/// any text the number group of a literal regex admits, natively: (parser 0 number / 1 percent / 2 money, convention,
+/// number of separators, the separators 0 ',' / 1 '.', the digits): evaluation must return (no panic)
+#[cfg(not(kani))]
+pub fn m_replay_literal_text() {
+    let parser: u8 = vany(); let conv: u8 = vany(); let nsep: u8 = vany();
+    vassume(parser <= 2 && conv <= 1 && nsep <= 3);
+    let mut seps = [0u8; 3];
+    let mut i = 0usize;
+    while i < nsep as usize { seps[i] = vany(); vassume(seps[i] <= 1); i += 1; }
+    let mut text = String::new();
+    i = 0;
+    while i <= nsep as usize {
+        if i > 0 { text.push(if seps[i - 1] == 0 { ',' } else { '.' }); }
+        let d: u8 = vany(); vassume(d <= 9);
+        text.push((b'0' + d) as char);
+        i += 1;
+    }
+    let line = match parser { 0 => text, 1 => alloc::format!("{}%", text), _ => alloc::format!("${}", text) };
+    let mut calc = crate::SmartCalc::default();
+    let (ts, ds) = if conv == 0 { (",", ".") } else { (".", ",") };
+    calc.set_decimal_seperator(ds.to_string());
+    calc.set_thousand_separator(ts.to_string());
+    let r = calc.execute("en", line);
+    assert!(r.status && r.lines.len() == 1);
+}
+#[cfg(kani)]
+pub fn m_replay_literal_text() {}
+
+/// a radix literal natively: (radix 16 / 8 / 2, number of digits, the digits): no panic; when it fits i64 it is the integer written
+#[cfg(not(kani))]
+pub fn m_replay_radix_literal() {
+    let radix: u8 = vany(); let n: u8 = vany();
+    vassume((radix == 16 || radix == 8 || radix == 2) && n >= 1 && n <= 70);
+    let mut text = String::from(match radix { 16 => "0x", 8 => "0o", _ => "0b" });
+    let mut value: f64 = 0.0;
+    let mut exact: u128 = 0;
+    let mut i = 0u8;
+    while i < n {
+        let d: u8 = vany(); vassume(d < radix);
+        text.push(core::char::from_digit(d as u32, radix as u32).unwrap());
+        value = value * radix as f64 + d as f64;
+        exact = exact.saturating_mul(radix as u128).saturating_add(d as u128);
+        i += 1;
+    }
+    let calc = crate::SmartCalc::default();
+    let r = calc.execute("en", text);
+    assert!(r.status && r.lines.len() == 1);
+    if exact <= i64::MAX as u128 {
+        let line = r.lines[0].as_ref().expect("a result line");
+        let res = line.result.as_ref().expect("the literal evaluates");
+        let got = match res.ast.deref() { SmartCalcAstType::Item(it) => it.get_underlying_number(), _ => f64::NAN };
+        assert!(got == value);
+    }
+}
+#[cfg(kani)]
+pub fn m_replay_radix_literal() {}
